@@ -45,11 +45,14 @@ SIM_CFGS = {
 # ----------------------------------------------------------------------------- fault variants
 def fault_bases(tier):
     out = []
-    cascs = ['B3', 'D3s'] if tier == 'quick' else ['B3', 'D3s', 'E3m', 'F4']
+    cascs = ['B3', 'D3s', 'H3h'] if tier == 'quick' else ['B3', 'D3s', 'E3m', 'F4', 'H3h']
     for casc in cascs:
         ds = CASCADES[casc]['branches']
         for mode in ('queue', 'noqueue', 'skip'):
-            steps = [open_pr(1, ds[0]), open_pr(2, ds[1] if mode != 'skip' else ds[0]),
+            if casc == 'H3h' and mode != 'queue':
+                continue
+            first = CASCADES[casc]['hotfix'][0] if casc == 'H3h' else ds[0]      # a hotfix pull request + its own queue
+            steps = [open_pr(1, first), open_pr(2, ds[1] if mode != 'skip' else ds[0]),
                      {"a": "eval_pr", "p": 1}] + approve(1) + [
                      {"a": "eval_pr", "p": 1}, {"a": "report_pr", "p": 1, "status": "SUCCESSFUL"},
                      {"a": "eval_pr", "p": 1},
